@@ -35,7 +35,7 @@ _NOISE = re.compile(
     r'The Meson build system$|Version: |Source dir: |Build dir: |Build type: |Project name: |Project version: |'
     r'Host machine cpu(?: family)?: |Build machine cpu(?: family)?: |Target machine cpu(?: family)?: |'
     r'Build targets in project: |Subproject \S+ finished\.$|Executing subproject |Found ninja|'
-    r'(?:\S+:\d+(?::\d+)?: )?(?:WARNING|DEPRECATION|NOTICE): | \* \d+\.\d+|Message: BEGIN$'
+    r'(?:\S+:\d+(?::\d+)?: )?(?:WARNING|DEPRECATION|NOTICE): |\s*\* \d+\.\d+(?:\.\d+)?: \{|Message: BEGIN$'
     r')')
 _ONLY_PREFIX = re.compile(r'^\S+\|\s*$')     # an empty continuation line of a subproject message
 _ERROR = re.compile(r'^(?:\S+\| )?(?:(.+?):(\d+):(\d+): )?ERROR: ')
@@ -453,6 +453,12 @@ def shape_sweep(seed: int, n: int) -> dict:
 def run_case(item: T.Tuple[str, T.Any]) -> dict:
     """Worker: build the program for this item, predict with the reference, run the real meson, compare."""
     kind, spec = item
+    try:        # a runaway generator/reference must die with MemoryError (-> inconclusive), not eat the machine
+        import resource
+        if resource.getrlimit(resource.RLIMIT_AS)[0] in (resource.RLIM_INFINITY, -1):
+            resource.setrlimit(resource.RLIMIT_AS, (8 << 30, 8 << 30))
+    except Exception:
+        pass
     if kind == 'shape':
         return shape_sweep(*spec)
     t0 = time.time()
@@ -477,7 +483,8 @@ def run_case(item: T.Tuple[str, T.Any]) -> dict:
         mviol, mcounts = monitor_findings(files, ref, obs)
         res['counts'].update(mcounts)
         res['cover'].update(ref.cover)
-        res['checked'] = sum(v.count('assert(') for v in files.values()) + len(expected_lines(ref))
+        # compared facts: every in-language assert, every message line, and the verdict (ok / fails at file:line)
+        res['checked'] = sum(v.count('assert(') for v in files.values()) + len(expected_lines(ref)) + 1
         e = ref.error
         res['counts']['ref:' + ('ok' if e is None else e.cls)] += 1
         res['counts']['obs:' + ('ok' if obs.rc == 0 else 'internal' if obs.internal else 'error')] += 1
@@ -487,7 +494,7 @@ def run_case(item: T.Tuple[str, T.Any]) -> dict:
             res['counts']['inconclusive:timeout'] += 1
         res['key'] = common.digest({'k': kind, 'f': files})
         res['label'] = prog.label
-        if kind != 'valid' or spec[0] % 50 == 0:
+        if kind != 'valid' or spec[0] % 25 == 0:
             res['sample'] = {'label': prog.label, 'ref': ref.brief()['error'], 'messages': len(ref.messages),
                              'main_head': files['meson.build'][:400]}
         if problems and not obs.timed_out:
@@ -643,7 +650,7 @@ def main() -> int:
     n_valid = 2500 if thorough else 250
     n_wrongtype = 1500 if thorough else 40      # (the cell matrix already visits every operator x type x type cell)
     per_cell = 20 if thorough else 1
-    budget_s = 17 * 60 if thorough else 150
+    budget_s = 15 * 60 if thorough else 150
 
     rng = chk.rng
     items: T.List[T.Tuple[str, T.Any]] = []
@@ -684,6 +691,7 @@ def main() -> int:
     cover: T.Counter[str] = collections.Counter()
     real_cells: T.Counter[str] = collections.Counter()
     kinds: T.Counter[str] = collections.Counter()
+    by_kind: T.Dict[str, T.List[dict]] = {}
     for res in results:
         kinds[res['kind']] += 1
         for k, v in res['counts'].items():
@@ -698,11 +706,16 @@ def main() -> int:
         if res['key']:
             chk.case(res['key'], nontrivial=res['checked'] > 0)
         if res.get('sample'):
-            chk.sample(res['sample'])
+            lab = str(res['sample'].get('label', ''))
+            skind = 'probe' if lab.startswith('probe') else lab.split(':', 1)[0] if res['kind'] != 'faulty' else 'faulty'
+            by_kind.setdefault(skind, []).append(res['sample'])
         if res.get('harness_error'):
             chk.notes.setdefault('harness_errors', []).append(res['harness_error'])
         for mech, w in res['violations']:
             chk.violation(mech, w)
+    for skind, n in (('valid', 2), ('faulty', 2), ('probe', 1), ('cell', 1), ('cells', 1), ('shape', 1)):
+        for smp in by_kind.get(skind, [])[:n]:
+            chk.sample(smp)
     # directed probes must have produced exactly their expected mechanism (or conform, once repaired)
     for res in results:
         if res.get('expect') is None:
